@@ -131,6 +131,8 @@ impl AwsChunkedStream {
                     secret_key,
                     prev_signature: seed_signature,
                 };
+                let mut decoded_length: usize = 0;
+                let mut saw_final_chunk = false;
 
                 loop {
                     let meta = {
@@ -162,9 +164,20 @@ impl AwsChunkedStream {
                         Some(signature) => ctx.prev_signature = signature,
                     }
 
+                    if meta.size == 0 {
+                        saw_final_chunk = true;
+                    }
+
                     for bytes in data {
+                        decoded_length = decoded_length.saturating_add(bytes.len());
                         y.yield_ok(bytes).await;
                     }
+                }
+
+                // The upload is complete only if the zero-length final chunk has been verified
+                // and the decoded bytes add up to the declared `x-amz-decoded-content-length`.
+                if !saw_final_chunk || decoded_length != decoded_content_length {
+                    return Err(AwsChunkedStreamError::Incomplete);
                 }
 
                 Ok(())
